@@ -292,6 +292,91 @@ def run(ctx):
         else:
             ctx.undecided('C14.3-cache-slots', 'AtomCache::insert', 'no map insertion recognised')
 
+    # a reference may only be written for an atom that has a header entry: the index byte is what the lookup found
+    ctx.rule('C14.1-ref-only-on-hit', 'wherever the encoder writes ATOM_CACHE_REF the index byte that follows is the value the lookup of that atom in the header map returned (its Some payload): '
+             'an atom without a header entry is written inline, never as a reference to a made-up index', floor=1)
+    from ..etf import writer_events, encoder_fns
+    from ..ranges import canon as _canon
+    n_ref = 0
+    for fn in sorted(encoder_fns(ctx.F)):
+        WB, seqs, trunc = writer_events(P, fn)
+        flat_seen = set()
+        for seq in seqs:
+            evs = [e for e in seq if isinstance(e, tuple) and e and e[0] in ('w', 'call')]
+            for i_, e in enumerate(evs):
+                if not (e[0] == 'w' and e[1] == 'u8' and e[2] == 82):
+                    continue
+                nxt = evs[i_ + 1] if i_ + 1 < len(evs) else None
+                k_ = (e[-1], nxt[-1] if nxt else None)
+                if k_ in flat_seen:
+                    continue
+                flat_seen.add(k_)
+                n_ref += 1
+                inst = '%s:ref@%d' % (fn.rsplit('::', 1)[1], n_ref)
+                where = ctx.where(WB, e[-1])
+                if nxt is None or nxt[0] != 'w' or nxt[1] != 'u8':
+                    ctx.bad('C14.1-ref-only-on-hit', inst, 'ATOM_CACHE_REF is not followed by a one-byte index (%s)' % (nxt,), where, key='WIRE:%s:cache-ref-shape' % fn)
+                    continue
+                c = _canon(WB, WB.blocks[nxt[-1]]['t']['args'][1])
+                hit = isinstance(c, tuple) and c[0] == 'place' and isinstance(c[1], tuple) and c[1][0] == 'call' and str(c[1][1]).endswith('::get') and 'HashMap' in str(c[1][1]) \
+                    and tuple(c[2])[:2] == ('as:Some', '0')
+                if hit:
+                    ctx.ok('C14.1-ref-only-on-hit', inst, 'index = payload of the successful map lookup', where)
+                else:
+                    ctx.bad('C14.1-ref-only-on-hit', inst, 'the index written after ATOM_CACHE_REF is %s, not the value a successful lookup returned: an atom missing from the header is sent as a reference to an unrelated entry and decodes to another atom'
+                            % describe(WB, c), where, key='PROV:%s:cache-ref-without-hit' % fn)
+    ctx.anchor(n_ref >= 1, 'an encoder function writing ATOM_CACHE_REF')
+
+    # the limit is enforced on the number of distinct atoms of the message, so the walk that counts them must not stop counting
+    ctx.rule('C14.4-atom-walk-uncapped', 'the walk that gathers the atoms of a message into the set whose size is then tested against the 255 limit inserts every atom it meets: '
+             'no branch of it depends on the size of that set (a walk that stops at the limit makes the "too many atoms" error unreachable)', floor=1)
+    n_w = 0
+    for q, b_ in sorted(ctx.F.bodies.items()):
+        if not (q.startswith(ENC) and b_['kind'] == 'Fn'):
+            continue
+        sets = [i for i in range(1, b_.get('argc', 0) + 1) if 'HashSet<' in b_['locals'][i]['ty'] and 'Atom' in b_['locals'][i]['ty'] and b_['locals'][i]['ty'].startswith('&mut')]
+        if not sets:
+            continue
+        n_w += 1
+        WB = P.B(q)
+        offending = []
+        Rw = Ranges(WB)
+        work = set(bb for bb, t in WB.calls() if any(n.endswith('::insert') or n == q for n in callee_names(t)))
+        for bb, t in WB.calls():
+            nm = callee_of(t)[0] or ''
+            if nm.rsplit('::', 1)[-1] in ('len', 'is_empty') and 'HashSet' in nm and t['args']:
+                root = receiver_root(WB, t['args'][0])[0]
+                if not (root and root[0] == 'arg' and root[1] in sets):
+                    continue
+                # a branch decided by that size whose one side inserts nothing any more: the walk is cut short there
+                ldst = t['dst']['l']
+                dl = WB.derived_locals([ldst]) | {ldst}
+                for sw in sorted(WB.live_blocks()):
+                    e = WB.switch_bool_edges(sw)
+                    if not e:
+                        continue
+                    src = e[0]
+                    if src[0] == 'bin':
+                        used = set(WB._op_locals(src[2]['a'])) | set(WB._op_locals(src[2]['b']))
+                    elif src[0] == 'call':
+                        used = set(l for a in src[2]['args'] for l in WB._op_locals(a)) | ({ldst} if src[1] == bb else set())
+                    else:
+                        used = set()
+                    if not (used & dl):
+                        continue
+                    for side in (e[1], e[2]):
+                        if WB.reachable(side) & work:
+                            continue
+                        lo, hi = Rw.range_of({'k': 'cp', 'pl': t['dst']}, side)
+                        if nm.endswith('is_empty') or lo <= 255:
+                            offending.append((side, lo))
+        if offending:
+            ctx.bad('C14.4-atom-walk-uncapped', q.rsplit('::', 1)[1], 'the walk stops once the set it is filling holds %s atoms: atoms beyond that point are not counted, so the `more than 255` test after the walk cannot fire'
+                    % offending[0][1], ctx.where(WB, offending[0][0]), key='SHAPE:%s:walk-capped-below-limit' % q)
+        else:
+            ctx.ok('C14.4-atom-walk-uncapped', q.rsplit('::', 1)[1], 'the walk is not cut short while the set holds 255 atoms or fewer', ctx.where(WB))
+    ctx.anchor(n_w >= 1, 'an encoder function that fills a &mut HashSet<&Atom>')
+
 
 def _selected_by_parity(B, mask_op):
     """the mask local is assigned 0x01 under "the count is even" and 0x10 under "the count is odd" (a test of count % 2 or
